@@ -47,7 +47,19 @@ func (f *Frame) evalModItems(env *Env, exprs []ast.Expr) (items []modItem) {
 			}
 			switch id.Name {
 			case "mem", "region":
-				v := env.eval(x.Args[0])
+				var v Val
+				if aid, ok := x.Args[0].(*ast.Ident); ok {
+					if av, ok := f.resolveAddr(aid.Name); ok {
+						if pt, ok := av.T.Underlying().(*types.Pointer); ok {
+							if _, isArr := pt.Elem().Underlying().(*types.Array); isArr {
+								v = av
+							}
+						}
+					}
+				}
+				if v.T == nil {
+					v = env.eval(x.Args[0])
+				}
 				var el types.Type
 				reg, lo, hi := v.C[0], "", ""
 				switch u := v.T.Underlying().(type) {
@@ -173,6 +185,7 @@ func (f *Frame) havocItems(st *State, items []modItem, reach string) {
 		case "region":
 			for _, h := range it.heaps {
 				nv := e.fresh("hv."+h.name, sx("Array", e.idxSort(), h.elem))
+				e.alias(nv, it.ref)
 				e.setHeap(st, h, sx("store", e.heapTerm(st, h), it.ref, nv))
 			}
 		case "mem":
@@ -182,9 +195,10 @@ func (f *Frame) havocItems(st *State, items []modItem, reach string) {
 				nv := e.fresh("hv."+h.name, sx("Array", e.idxSort(), h.elem))
 				e.nf++
 				tok := fmt.Sprintf("?q%d", e.nf)
-				e.pre.qhyps = append(e.pre.qhyps, &QHyp{Var: tok, Sort: e.idxSort(),
+				e.addQ(&QHyp{Var: tok, Sort: e.idxSort(),
 					Guard: or(e.ilt(tok, it.lo), e.ile(it.hi, tok)),
-					Body:  eq(sx("select", nv, tok), sx("select", old, tok)), Offsets: []string{e.idxLit(0)}, Reach: "true"})
+					Body:  eq(sx("select", nv, tok), sx("select", old, tok)), Offsets: []string{it.ref + "\x00" + e.idxLit(0)}, Reach: "true"})
+				e.alias(nv, it.ref)
 				e.setHeap(st, h, sx("store", cur, it.ref, nv))
 			}
 		}
@@ -274,7 +288,6 @@ func (f *Frame) frameObligations(kind, reach string, before, after *State, items
 		}
 		k0 := fmt.Sprintf("fk!%d", e.nf)
 		decls += fmt.Sprintf("(declare-const %s %s)\n", k0, e.idxSort())
-		e.noteRead(k0)
 		for _, it := range items {
 			for _, ih := range it.heaps {
 				if ih != h {
@@ -944,7 +957,9 @@ func (f *Frame) bulkWrite(st *State, reach string, elem types.Type, dstReg strin
 			body := ite(in,
 				eq(sx("select", nv, tok), sx("select", src[ci], e.iadd(srcStart, e.isub(tok, dstStart)))),
 				eq(sx("select", nv, tok), sx("select", base[ci], tok)))
-			e.pre.qhyps = append(e.pre.qhyps, &QHyp{Var: tok, Sort: e.idxSort(), Guard: "true", Body: body, Offsets: []string{e.idxLit(0)}, Reach: "true"})
+			offs := []string{dstReg + "\x00" + e.idxLit(0)}
+			e.alias(nv, dstReg)
+			e.addQ(&QHyp{Var: tok, Sort: e.idxSort(), Guard: "true", Body: body, Offsets: offs, Reach: "true"})
 		}
 		e.setHeap(st, h, sx("store", cur, dstReg, nv))
 	}
